@@ -1,6 +1,21 @@
 (* pinned translation of the pinned revision of /repo (tools/rustfun.py --pin); fragments per function,
    used as fallback text when a function cannot be located or translated *)
 
+Inductive src_Bound : Type :=
+  | src_Bound_Included (x0 : list N)
+  | src_Bound_Excluded (x0 : list N)
+  | src_Bound_Unbounded.
+
+Inductive src_StartsWithStateKind (A : src_aut) : Type :=
+  | src_StartsWithStateKind_Done
+  | src_StartsWithStateKind_Running (x0 : src_St A).
+
+Inductive src_State : Type :=
+  | src_State_OneTransNext (x0 : N)
+  | src_State_OneTrans (x0 : N)
+  | src_State_AnyTrans (x0 : N)
+  | src_State_EmptyFinal.
+
 Definition src_fn_pack_size (n : N) : N :=
   if (n <? 256)
   then 1
@@ -17,6 +32,44 @@ Definition src_fn_pack_size (n : N) : N :=
             else (if (n <? 72057594037927936)
               then 7
               else 8)))))).
+
+Definition src_fn_unpack_uint (slice : list N) (nbytes : N) : res N :=
+  if ((1 <=? nbytes) && (nbytes <=? 8))
+  then (do t <- (if (nbytes <=? (len slice))
+      then (Ok nbytes)
+      else Panic);
+    Ok (fold_left (fun n src_e => let '(i, b) := src_e in (N.lor n (N.shiftl b (8 * i)))) (src_enumerate (firstn (N.to_nat t) slice)) 0))
+  else Panic.
+
+Definition src_fn_pack_uint_in_bytes (n nbytes : N) : res (list N) :=
+  if ((1 <=? nbytes) && (nbytes <=? 8))
+  then (let buf := (repeatN 0 8) in
+    let '(buf_3, n_3) := (fold_left (fun src_st i => let '(buf_1, n_1) := src_st in let buf_2 := (set_nth buf_1 (N.to_nat i) (n_1 mod 256)) in
+      let n_2 := (N.shiftr n_1 8) in
+      (buf_2, n_2)) (src_range 0 nbytes) (buf, n)) in
+    Ok (firstn (N.to_nat nbytes) buf_3))
+  else Panic.
+
+Definition src_fn_Bound_exceeded_by (self_ : src_Bound) (inp : list N) : bool :=
+  match self_ with
+  | src_Bound_Included v => (key_ltb v inp)
+  | src_Bound_Excluded v_1 => (key_leb v_1 inp)
+  | src_Bound_Unbounded => false
+  end.
+
+Definition src_fn_Bound_is_empty (self_ : src_Bound) : bool :=
+  match self_ with
+  | src_Bound_Included v => (len v =? 0)
+  | src_Bound_Excluded v_1 => (len v_1 =? 0)
+  | src_Bound_Unbounded => true
+  end.
+
+Definition src_fn_Bound_is_inclusive (self_ : src_Bound) : bool :=
+  match self_ with
+  | src_Bound_Included _ => true
+  | src_Bound_Excluded _ => false
+  | src_Bound_Unbounded => true
+  end.
 
 Definition src_fn_Output_prefix (self0 o : N) : N :=
   (N.min self0 o).
@@ -382,6 +435,156 @@ Definition src_fn_StateAnyTrans_output_at (start v sizes ntrans version i : N) :
       then (Ok (t_5 - osize))
       else Panic);
     Ok (Some t_6)).
+
+Definition src_fn_Str_start (self_string : list N) : option N :=
+  (Some 0).
+
+Definition src_fn_Str_is_match (self_string : list N) (pos : option N) : bool :=
+  (src_opt_eqb pos (Some (len self_string))).
+
+Definition src_fn_Str_can_match (self_string : list N) (pos : option N) : bool :=
+  (match pos with Some _ => true | None => false end).
+
+Definition src_fn_Str_accept (self_string : list N) (pos : option N) (byte : N) : res (option N) :=
+  match pos with
+  | Some pos_1 => (if (src_opt_eqb (nth_error self_string (N.to_nat pos_1)) (Some byte))
+      then (do t <- (if ((pos_1 + 1) <=? 18446744073709551615)
+          then (Ok (pos_1 + 1))
+          else Panic);
+        Ok (Some t))
+      else (Ok None))
+  | None => (Ok None)
+  end.
+
+Definition src_fn_Subsequence_start (self_subseq : list N) : N :=
+  0.
+
+Definition src_fn_Subsequence_is_match (self_subseq : list N) (state : N) : bool :=
+  (state =? (len self_subseq)).
+
+Definition src_fn_Subsequence_can_match (self_subseq : list N) (unused : N) : bool :=
+  true.
+
+Definition src_fn_Subsequence_will_always_match (self_subseq : list N) (state : N) : bool :=
+  (state =? (len self_subseq)).
+
+Definition src_fn_Subsequence_accept (self_subseq : list N) (state byte : N) : res N :=
+  if (state =? (len self_subseq))
+  then (Ok state)
+  else (do t <- (if (state <? (len self_subseq))
+      then (Ok state)
+      else Panic);
+    if ((state + (if (byte =? (List.nth (N.to_nat t) self_subseq 0)) then 1 else 0)) <=? 18446744073709551615)
+    then (Ok (state + (if (byte =? (List.nth (N.to_nat t) self_subseq 0)) then 1 else 0)))
+    else Panic).
+
+Definition src_fn_AlwaysMatch_start : unit :=
+  tt.
+
+Definition src_fn_AlwaysMatch_is_match (unused : unit) : bool :=
+  true.
+
+Definition src_fn_AlwaysMatch_can_match (unused : unit) : bool :=
+  true.
+
+Definition src_fn_AlwaysMatch_will_always_match (unused : unit) : bool :=
+  true.
+
+Definition src_fn_AlwaysMatch_accept (unused : unit) (unused_1 : N) : unit :=
+  tt.
+
+Definition src_fn_StartsWith_start (A : src_aut) : src_StartsWithStateKind A :=
+  (let inner := (src_start A) in
+      if (src_is_match A inner)
+      then (src_StartsWithStateKind_Done A)
+      else (src_StartsWithStateKind_Running A inner)).
+
+Definition src_fn_StartsWith_is_match (A : src_aut) (state : src_StartsWithStateKind A) : bool :=
+  match state with
+  | src_StartsWithStateKind_Done _ => true
+  | src_StartsWithStateKind_Running _ _ => false
+  end.
+
+Definition src_fn_StartsWith_can_match (A : src_aut) (state : src_StartsWithStateKind A) : bool :=
+  match state with
+  | src_StartsWithStateKind_Done _ => true
+  | src_StartsWithStateKind_Running _ inner => (src_can_match A inner)
+  end.
+
+Definition src_fn_StartsWith_will_always_match (A : src_aut) (state : src_StartsWithStateKind A) : bool :=
+  match state with
+  | src_StartsWithStateKind_Done _ => true
+  | src_StartsWithStateKind_Running _ _ => false
+  end.
+
+Definition src_fn_StartsWith_accept (A : src_aut) (state : src_StartsWithStateKind A) (byte : N) : src_StartsWithStateKind A :=
+  (match state with
+      | src_StartsWithStateKind_Done _ => (src_StartsWithStateKind_Done A)
+      | src_StartsWithStateKind_Running _ inner => (let next_inner := (src_accept A inner byte) in
+          if (src_is_match A next_inner)
+          then (src_StartsWithStateKind_Done A)
+          else (src_StartsWithStateKind_Running A next_inner))
+      end).
+
+Definition src_fn_Union_start (A B : src_aut) : ((src_St A) * (src_St B)) :=
+  ((src_start A), (src_start B)).
+
+Definition src_fn_Union_is_match (A B : src_aut) (state : ((src_St A) * (src_St B))) : bool :=
+  ((src_is_match A (fst state)) || (src_is_match B (snd state))).
+
+Definition src_fn_Union_can_match (A B : src_aut) (state : ((src_St A) * (src_St B))) : bool :=
+  ((src_can_match A (fst state)) || (src_can_match B (snd state))).
+
+Definition src_fn_Union_will_always_match (A B : src_aut) (state : ((src_St A) * (src_St B))) : bool :=
+  ((src_will_always_match A (fst state)) || (src_will_always_match B (snd state))).
+
+Definition src_fn_Union_accept (A B : src_aut) (state : ((src_St A) * (src_St B))) (byte : N) : ((src_St A) * (src_St B)) :=
+  ((src_accept A (fst state) byte), (src_accept B (snd state) byte)).
+
+Definition src_fn_Intersection_start (A B : src_aut) : ((src_St A) * (src_St B)) :=
+  ((src_start A), (src_start B)).
+
+Definition src_fn_Intersection_is_match (A B : src_aut) (state : ((src_St A) * (src_St B))) : bool :=
+  ((src_is_match A (fst state)) && (src_is_match B (snd state))).
+
+Definition src_fn_Intersection_can_match (A B : src_aut) (state : ((src_St A) * (src_St B))) : bool :=
+  ((src_can_match A (fst state)) && (src_can_match B (snd state))).
+
+Definition src_fn_Intersection_will_always_match (A B : src_aut) (state : ((src_St A) * (src_St B))) : bool :=
+  ((src_will_always_match A (fst state)) && (src_will_always_match B (snd state))).
+
+Definition src_fn_Intersection_accept (A B : src_aut) (state : ((src_St A) * (src_St B))) (byte : N) : ((src_St A) * (src_St B)) :=
+  ((src_accept A (fst state) byte), (src_accept B (snd state) byte)).
+
+Definition src_fn_Complement_start (A : src_aut) : src_St A :=
+  (src_start A).
+
+Definition src_fn_Complement_is_match (A : src_aut) (state : src_St A) : bool :=
+  (negb (src_is_match A state)).
+
+Definition src_fn_Complement_can_match (A : src_aut) (state : src_St A) : bool :=
+  (negb (src_will_always_match A state)).
+
+Definition src_fn_Complement_will_always_match (A : src_aut) (state : src_St A) : bool :=
+  (negb (src_can_match A state)).
+
+Definition src_fn_Complement_accept (A : src_aut) (state : src_St A) (byte : N) : src_St A :=
+  (src_accept A state byte).
+
+Definition src_fn_Ref_start (T : src_aut) : src_St T :=
+  (src_start T).
+
+Definition src_fn_Ref_is_match (T : src_aut) (state : src_St T) : bool :=
+  (src_is_match T state).
+
+Definition src_fn_Ref_can_match (T : src_aut) (state : src_St T) : bool :=
+  (src_can_match T state).
+
+Definition src_fn_Ref_will_always_match (T : src_aut) (state : src_St T) : bool :=
+  (src_will_always_match T state).
+
+Definition src_fn_Ref_accept (T : src_aut) (state : src_St T) (byte : N) : src_St T :=
+  (src_accept T state byte).
 
 Definition src_fn_Fst_new_too_short (len version root_addr : N) : bool :=
   (len <? 32).
